@@ -89,5 +89,9 @@ CaseOK(c) ==
            IF c.op = "res" /\ c.res = "" THEN c.ret = "err" /\ ~listed
            ELSE IF c.op = "res" /\ c.fam # "sys" /\ r.res # c.res THEN ~listed
            ELSE IF Valid(c.fam, r) /\ Supported(c.fam, r) THEN listed     \* accepted => reported active
+           \* accepted by the validity check, but of a Custom(_) strategy nobody registered a generator
+           \* for: nothing can enforce it; whether the manager still reports it is not determined
+           \* (the circuit-breaker manager does after load_rules / append_rule, the others do not)
+           ELSE IF Valid(c.fam, r) THEN TRUE
            ELSE ~listed                                                   \* rejected => refused or ignored
 =============================================================================
